@@ -225,6 +225,12 @@ impl Env {
                     _ => 0,
                 };
                 let mut args = json!({"p": pname(p), "start": start, "n": n, "tip": server.tip + 1, "kind": "honest"});
+                if kind == "cps" {
+                    let maps = crate::verif::project::Maps::new(&sim.chain);
+                    if let packed::BlockFilterMessageUnion::BlockFilterCheckPoints(c) = m.to_enum() {
+                        args["vals"] = json!(c.block_filter_hashes().into_iter().map(|h| maps.fid(&h)).collect::<Vec<_>>());
+                    }
+                }
                 if kind == "filters" {
                     let chain = sim.chain.chain_of(server.tip);
                     let ids: Vec<usize> = (start..start + n).map(|h| chain[h as usize] + 1).collect();
@@ -537,5 +543,75 @@ impl Env {
         let m = ckb_types::packed::SyncMessage::new_builder().set(content).build();
         let args = json!({"p": pname(p), "b": block + 1, "body": "forged"});
         sim.step("Block", args, |c| c.deliver(Proto::Sync, p, m.as_bytes()));
+    }
+}
+
+// ---------------------------------------------------------------------------------------------
+// Check points (C07): honest, lying and malformed BlockFilterCheckPoints
+// ---------------------------------------------------------------------------------------------
+/// An invented check point value; peers of the same group invent the same value for an index.
+pub fn fake_cp(group: u8, index: u64) -> packed::Byte32 {
+    let mut b = [0u8; 32];
+    b[0] = 0xFA;
+    b[1] = 0xCE;
+    b[2] = group;
+    b[3] = (index % 100) as u8;
+    b.pack()
+}
+
+/// How a peer answers check point requests: the true values up to (excluding) index `from`, then invented ones.
+#[derive(Clone, Copy, Debug)]
+pub struct CpLie {
+    pub from: u64,
+    pub group: u8,
+}
+
+impl Env {
+    /// The check points peer i reports from `start` on: count values, true or (from the lie's index on) invented.
+    pub fn cp_values(&self, sim: &Sim, i: usize, start: u64, interval: u64, count: usize, lie: Option<CpLie>) -> Vec<packed::Byte32> {
+        let server = &self.peers[i].server;
+        let chain = sim.chain.chain_of(server.tip);
+        let tip_num = sim.chain.blocks[server.tip].num;
+        let mut out = Vec::new();
+        let mut n = start;
+        while out.len() < count {
+            let idx = n / interval.max(1);
+            let lying = lie.map(|l| idx >= l.from).unwrap_or(false);
+            if lying {
+                out.push(fake_cp(lie.unwrap().group, idx));
+            } else if n <= tip_num {
+                out.push(sim.chain.blocks[chain[n as usize]].filter_hash.clone());
+            } else {
+                break;
+            }
+            n += interval;
+        }
+        out
+    }
+
+    pub fn send_check_points(&mut self, sim: &mut Sim, i: usize, start: u64, vals: Vec<packed::Byte32>, kind: &str) {
+        let p = self.peers[i].idx;
+        let maps = crate::verif::project::Maps::new(&sim.chain);
+        let ids: Vec<i64> = vals.iter().map(|h| maps.fid(h)).collect();
+        let content = packed::BlockFilterCheckPoints::new_builder()
+            .start_number(start.pack())
+            .block_filter_hashes(vals.pack())
+            .build();
+        let m = packed::BlockFilterMessage::new_builder().set(content).build();
+        let args = json!({"p": pname(p), "start": start, "vals": ids, "kind": kind, "tip": self.peers[i].server.tip + 1});
+        sim.step("CheckPoints", args, |c| c.deliver(Proto::Filter, p, m.as_bytes()));
+    }
+
+    /// Answers the oldest GetBlockFilterCheckPoints of peer i, with the peer's lie if it has one.
+    pub fn answer_cp(&mut self, sim: &mut Sim, i: usize, interval: u64, lie: Option<CpLie>) -> bool {
+        let p = self.peers[i].idx;
+        let start = match sim.take_request(p, |s| sim::filter_request(s).filter(|(k, _)| *k == "cps")) {
+            Some((_, start)) => start,
+            None => return false,
+        };
+        let count = self.peers[i].server.cp_batch;
+        let vals = self.cp_values(sim, i, start, interval, count, lie);
+        self.send_check_points(sim, i, start, vals, if lie.is_some() { "lie" } else { "honest" });
+        true
     }
 }
